@@ -50,7 +50,9 @@ def merge_cover(runs, spec):
                 pts[key] = pts.get(key, 0) + x["hits"]
     if not pts:
         return None, None
-    try:  # machine-readable copy of everything measured (all files), for tools/coverage_union.py
+    try:  # machine-readable copy of everything measured (all files), for tools/coverage_union.py (runs against /repo only)
+        if os.path.realpath(C.REPO) != "/repo":
+            raise OSError("other tree")
         os.makedirs(os.path.join(C.WORK, "cover"), exist_ok=True)
         json.dump([[f, a, b, fn, h] for (f, a, b, fn), h in sorted(pts.items())],
                   open(os.path.join(C.WORK, "cover", spec.get("_pid", "x") + ".json"), "w"))
